@@ -71,7 +71,11 @@ Definition unpack_cred (r : reader) : res (cred * reader) :=
     '(mech, sr) <- read_str sr None None ;;
     creds <- (match sr with
               | [] => Ok None
-              | _ => '(c, _) <- read_octet_string sr None None ;; Ok (Some c)
+              | _ =>
+                  nh <- peek_header sr ;;
+                  if (t_cls (h_tag nh) =? cls_universal) && (t_num (h_tag nh) =? tn_octet_string) then
+                    '(c, _) <- read_octet_string sr None (Some nh) ;; Ok (Some c)
+                  else Ok None
               end) ;;
     Ok (CrSasl mech creds, r')
   else if (t_cls (h_tag h) =? cls_context) && (t_num (h_tag h) =? aid_simple) then
